@@ -69,6 +69,7 @@ func Build(d *Design) func() {
 					}
 				})
 			}
+			metas(d.Meta)
 			in.raw("api")
 		})
 		for _, t := range d.Types {
@@ -429,6 +430,15 @@ func (in *interp) methodAtt(call func(val any, args ...any), a *Att) {
 	}
 }
 
+// metas emits Meta(key, values...) calls.
+func metas(ms [][]string) {
+	for _, m := range ms {
+		if len(m) > 0 {
+			dsl.Meta(m[0], m[1:]...)
+		}
+	}
+}
+
 func (in *interp) service(s *Service) {
 	dsl.Service(s.Name, func() {
 		for _, r := range s.Security {
@@ -450,6 +460,7 @@ func (in *interp) service(s *Service) {
 				}
 			})
 		}
+		metas(s.Meta)
 		in.raw("service:" + s.Name)
 		for _, m := range s.Methods {
 			in.method(s, m)
@@ -478,6 +489,7 @@ func (in *interp) method(s *Service, m *Method) {
 		for _, e := range m.Errors {
 			in.errDef(e)
 		}
+		metas(m.Meta)
 		in.raw("method:" + s.Name + "." + m.Name)
 		if m.HTTP != nil {
 			in.http(s, m)
